@@ -41,8 +41,14 @@ struct program {
     return v;
   }
   // i-th constant of the program: symbolic if selected, else its default
+  const std::vector<sx::term> *reuse = nullptr; // constants of a previous build of the same program
+  std::vector<var_t> outputs;
   znum K(long dflt) {
     int i = nconst++;
+    if (reuse) {
+      consts.push_back((*reuse)[i]);
+      return (*reuse)[i].num();
+    }
     sx::term t(dflt);
     if (symset.count(i)) {
       t = sx::fresh(("K" + std::to_string(i)).c_str());
@@ -316,6 +322,81 @@ inline void build(program &P, const std::string &name) {
     e.assign(x, E(P.K(0)));
     n.add(x, x, P.K(0));
     P.asrt(m, le(E(P.K(1)), E(x)));
+  } else if (name == "sumodd") { // single self-loop block; t is live at its end only through the self edge
+    var_t n = P.iv("n"), i = P.iv("i"), sv = P.iv("s"), t = P.iv("t");
+    P.mk("entry", "exit");
+    auto &entry = P.cfg->insert("entry");
+    auto &l = P.cfg->insert("l");
+    auto &ex = P.cfg->insert("exit");
+    entry >> l; entry >> ex; l >> l; l >> ex;
+    entry.assign(i, E(P.K(0)));
+    entry.assign(sv, E(znum(0)));
+    entry.assign(t, E(P.K(1)));
+    l.assume(le(E(i), E(n) - E(znum(1))));
+    l.add(sv, sv, t);
+    l.add(i, i, znum(1));
+    l.add(t, t, P.K(2));
+    ex.assume(le(E(n), E(i)));
+    P.outputs = {sv};
+    P.cfg->set_func_decl(cfg_t::fdecl_t("sumodd", {n}, {sv}));
+  } else if (name == "deadcode") { // dead assignments, a dead havoc, statements after unreachable
+    var_t a = P.iv("a"), x = P.iv("x"), y = P.iv("y"), z = P.iv("z"), w = P.iv("w");
+    P.mk("b0", "b3");
+    auto &b0 = P.cfg->insert("b0");
+    auto &b1 = P.cfg->insert("b1");
+    auto &b2 = P.cfg->insert("b2");
+    auto &b3 = P.cfg->insert("b3");
+    b0 >> b1; b0 >> b2; b1 >> b3; b2 >> b3;
+    b0.assign(x, E(a) + E(P.K(1)));
+    b0.assign(y, E(x) + E(znum(1)));   // dead
+    b0.havoc(w);                        // dead
+    b0.assign(z, E(P.K(5)));
+    b1.assume(le(E(x), E(P.K(3))));
+    b1.assign(y, E(znum(7)));
+    b1.add(z, z, x);
+    b2.assume(lt(E(P.consts[2].num()), E(x)));
+    b2.mul(w, x, znum(2));              // dead
+    b2.sub(z, z, y);                    // y live here: b0's definition of y is NOT dead on this path
+    P.asrt(b3, le(E(z), E(P.K(20))));
+    b3.assign(x, E(znum(0)));           // dead (x is not an output)
+    P.outputs = {z};
+    P.cfg->set_func_decl(cfg_t::fdecl_t("deadcode", {a}, {z}));
+  } else if (name == "chain") { // single-successor chains, an unreachable block, a block that cannot reach the exit
+    var_t a = P.iv("a"), x = P.iv("x"), y = P.iv("y");
+    P.mk("c0", "c4");
+    auto &c0 = P.cfg->insert("c0");
+    auto &c1 = P.cfg->insert("c1");
+    auto &c2 = P.cfg->insert("c2");
+    auto &c3 = P.cfg->insert("c3");
+    auto &c4 = P.cfg->insert("c4");
+    auto &u = P.cfg->insert("unreach");
+    auto &k = P.cfg->insert("sink");
+    c0 >> c1; c1 >> c2; c2 >> c3; c2 >> k; c3 >> c4; u >> c3;
+    c0.assign(x, E(a) + E(P.K(1)));
+    c1.add(y, x, P.K(2));
+    P.asrt(c1, le(E(y), E(P.K(9))));
+    c2.mul(x, y, znum(2));
+    c3.assume(le(E(x), E(P.K(30))));
+    c3.sub(y, x, y);
+    u.assign(y, E(znum(100)));
+    k.assign(y, E(znum(-1)));
+    P.asrt(c4, le(E(znum(0)), E(y) + E(P.K(50))));
+    P.outputs = {y};
+    P.cfg->set_func_decl(cfg_t::fdecl_t("chain", {a}, {y}));
+  } else if (name == "crawl") { // an assertion in a loop whose operand is overwritten from another variable
+    var_t x = P.iv("x"), y = P.iv("y"), k = P.iv("k");
+    P.mk("entry", "exit");
+    auto &entry = P.cfg->insert("entry");
+    auto &head = P.cfg->insert("head");
+    auto &body = P.cfg->insert("body");
+    auto &ex = P.cfg->insert("exit");
+    entry >> head; head >> body; body >> head; head >> ex;
+    entry.assign(k, E(znum(0)));
+    body.assume(le(E(k), E(P.K(1))));
+    P.asrt(body, le(E(P.K(1)), E(x)));
+    body.assign(x, E(y));
+    body.add(k, k, znum(1));
+    ex.assume(le(E(P.consts[0].num()) + E(znum(1)), E(k)));
   } else
     throw sxe::no_verdict{"unknown-program"};
 }
